@@ -205,6 +205,12 @@ func (x *Exec) dispatch(st *State, fr *Frame, dst ssa.Value, c *ssa.CallCommon, 
 	}
 	inModule := callee.Package() != nil && callee.Package().Pkg != nil && strings.HasPrefix(callee.Package().Pkg.Path(), modulePath)
 	if callee.Blocks != nil && (inModule || (callee.Synthetic != "" && !strings.HasPrefix(callee.Synthetic, "instance of"))) && len(st.Frames) < 6 {
+		if c != nil && fv != nil && fv.Clo != nil {
+			// a call of a local function literal through its variable: a site of its own (call:NAME)
+			if ap := accessPath(c.Value); ap != "" {
+				x.siteAsserts(st, fr, "call:"+ap, pos)
+			}
+		}
 		x.inline(st, fr, dst, callee, args, freeVars, isDefer)
 		return
 	}
